@@ -174,7 +174,9 @@ def _task(spec):
                     sP = sP.aset(nm, P_field(getattr(src, nm)), create_new_ok=True)
             else:
                 _, st, pol, gated, rot = s
-                src, pos = K.make_dipole(shape, cfg, T, source_type=st, polarization=pol, gated=gated, rotated=rot)
+                # rotated dipoles carry SYMBOLIC angles: with concrete angles the orientation vector is computed in
+                # floating point and its cyclic images differ in the last bit (round-off, not a property matter)
+                src, pos = K.make_dipole(shape, cfg, T, source_type=st, polarization=pol, gated=gated, rotated="sym" if rot else False)
                 import fdtdx
                 from fdtdx.core.wavelength import WaveCharacter
 
@@ -182,7 +184,7 @@ def _task(spec):
                 if gated:
                     kw["switch"] = src.switch
                 if rot:
-                    kw.update(azimuth_angle=30.0, elevation_angle=20.0)
+                    kw.update(azimuth_angle=src.azimuth_angle, elevation_angle=src.elevation_angle)
                 sP = fdtdx.PointDipoleSource(wave_character=WaveCharacter(wavelength=1e-6), polarization=P_axis(pol), source_type=st, name=src.name + "_P", temporal_profile=src.temporal_profile, **kw)
                 sP = scene._place(sP, P_slice(src._grid_slice_tuple), cfg)
             sP = sP.aset("_is_on_at_time_step_arr", src._is_on_at_time_step_arr, create_new_ok=True)
@@ -222,6 +224,12 @@ def _task(spec):
     return body
 
 
+def _T(body, **kw):
+    from vc.shims import NumpyPassthrough
+
+    return Task(body, extra_patch={"fdtdx.objects.sources.dipole": {"np": NumpyPassthrough()}}, **kw)
+
+
 def tasks(tier, seed):
     out = {}
     combos = [
@@ -246,7 +254,7 @@ def tasks(tier, seed):
     ]
     for ss in src_sets:
         lab = "+".join("_".join(str(x) for x in s) for s in ss)
-        out[f"src/{lab}/e3m3"] = Task(_task(dict(bnd=mixed, eps=3, mu=3, sigE=1, sigH=None, sources=ss)), max_paths=512)
+        out[f"src/{lab}/e3m3"] = _T(_task(dict(bnd=mixed, eps=3, mu=3, sigE=1, sigH=None, sources=ss)), max_paths=512)
     # one-cell-wide domains: the plane normal to axis 2 in a domain that is one cell wide along axis 0
     open_ = ((None, None),) * 3
     for ax, thin in [(2, 0), (1, 0), (2, 1), (0, 1)]:
